@@ -354,3 +354,31 @@ func retResults(ret *ssa.Return) []ssa.Value {
 	}
 	return out
 }
+
+// unwrapLocal: if v is a load of a local slot with exactly one store, return
+// the stored value (repeatedly); otherwise v.
+func unwrapLocal(v ssa.Value) ssa.Value {
+	for i := 0; i < 4; i++ {
+		ld, ok := v.(*ssa.UnOp)
+		if !ok || ld.Op != token.MUL {
+			return v
+		}
+		a, ok := ld.X.(*ssa.Alloc)
+		if !ok {
+			return v
+		}
+		var stored ssa.Value
+		n := 0
+		for _, ref := range *a.Referrers() {
+			if st, ok := ref.(*ssa.Store); ok && st.Addr == ssa.Value(a) {
+				stored = st.Val
+				n++
+			}
+		}
+		if n != 1 {
+			return v
+		}
+		v = stored
+	}
+	return v
+}
